@@ -448,6 +448,13 @@ def tasks_c20(root, tier, tree):
             p = workload.generated_unit(root, idx, stream="program-c20", bias={"rich": i % 4 == 1})
         srcs.append(("gen:program-c20:%d" % idx, p["source"], [], p["need"], p["samples"]))
     srcs = srcs[:max(T["c20_sources"], 1)]
+    # programs on the edge of the compile-time liveness rules: here the *verdict* is the sensitive observable (the cycle
+    # search walks symbol sets and transition lists whose order depends on hashes and addresses)
+    for j in range(T["c20_sources"] * 3 // 10):
+        idx = 180000 + j
+        kw = ({"nearmiss2": True}, {"nearmiss": True}, {"nearmiss4": True}, {"nearmiss2": True}, {"nearmiss3": True})[j % 5]
+        p = workload.generated_unit(root, idx, stream="program-c20-nearmiss%d" % (j % 5), **kw)
+        srcs.append(("gen:program-c20-nearmiss:%d" % idx, p["source"], [], p["need"], p["samples"]))
     for idx, (label, src, base, need, seeds) in enumerate(srcs):
         rng = sched.rng_for(root, "c20opts", idx)
         argv = workload.sample_argv(rng, base=base, need=need)
